@@ -105,6 +105,7 @@ class ReachingDefs:
         IN: dict[int, dict[str, set[int]]] = {n: {} for n in live}
         OUT: dict[int, dict[str, set[int]]] = {n: {} for n in live}
         order = sorted(live)
+        all_names = {name for names in self.gen.values() for name in names}
         changed = True
         while changed:
             changed = False
@@ -117,6 +118,12 @@ class ReachingDefs:
                         new_in.setdefault(name, set()).update(ds)
                 IN[n] = new_in
                 out = {k: set(v) for k, v in new_in.items()}
+                if n == cfg.entry:
+                    # every name that is (re)defined somewhere has an explicit "entry" definition
+                    # (parameter / free variable / unbound), so that a join of a defining and a
+                    # non-defining path keeps both
+                    for name in all_names:
+                        out[name] = {n}
                 for name in self.gen[n]:
                     out[name] = {n}
                     # assigning a.b kills nothing else; assigning a kills a.* definitions
